@@ -1,13 +1,13 @@
 """C20 - the ykh command: error discipline and dispatch table (E10). Table cell contents are NOT decided."""
-import e10_cli, harness
+import e10_cli, harness, e28_rmodstr
 
 LEVEL = 'other'
 EXPLANATION = ('Call-graph and path analysis of the ykh binary\'s MIR: every command dispatch runs inside the panic guard, the guard '
                'turns unwinding panics into Err, main prints a table only on the Ok arm and exits non-zero with only stderr output on '
                'the Err arm, nothing reachable from dispatch writes stdout (no partial table before an error), no panic=abort profile; '
                'and the expanded (-t, -c) dispatch of kh/ckh calls App::<T>::run exactly with the documented ring type for each '
-               'combination, with every documented combination present. NOT decided: that the cells of the printed table equal the '
-               'library\'s groups (formatting of values), malformed-input detection inside the parsers.')
+               'combination, with every documented combination present. (E28) the module string of a cell mentions every summand: "0" only for the trivial module, the bare symbol for rank 1, symbol^rank above, and one (symbol/t)[^mult] per torsion key, for every rank. NOT decided: which cell a group is printed in, '
+               'separator characters, malformed-input detection inside the parsers.')
 TRUSTED = ['rustc MIR of the ykh crate (default features; thorough tier adds --features all / bigint / i128)',
            'call graph over-approximates (CHA)', 'std::process::exit terminates with the given status']
 
@@ -16,6 +16,8 @@ def run(ctx, rep):
     facts = ctx.facts()
     rep.rule('E10', e10_cli.__doc__.strip().split('\n')[0])
     e10_cli.run(facts, rep, 'i64', harness.REPO)
+    rep.rule('E28', e28_rmodstr.__doc__.strip().split('\n')[0])
+    e28_rmodstr.run(facts, rep)
     if ctx.tier == 'thorough':
         for cfg, ity in (('ykh-i128', 'i128'), ('ykh-bigint', 'num_bigint::BigInt')):
             f2 = ctx.facts(cfg)
